@@ -666,7 +666,8 @@ class SimFile:
         self.name = path
         self.mode = mode
         self._fd = fd
-        self._enc = encoding or 'utf-8'
+        # ('locale' is what pathlib.Path.open passes for a text file opened without an explicit encoding)
+        self._enc = 'utf-8' if encoding in (None, 'locale') else encoding
         self._bin = binary
         self._buf = []
         self._n = 0
